@@ -156,7 +156,10 @@ def _field_values(f):
     if f.kind == "varint":
         vals = [("v", v) for v in VARINT_VALUES + [f.value - 1, f.value + 1]] + [("raw", r) for r in VARINT_RAW]
     elif f.kind == "int32":
-        vals = [("v", v) for v in INT32_VALUES + [f.value - 1, f.value + 1]]
+        # besides the extremes: lengths that make a length-driven walk stall (-12 = minus the log overhead),
+        # step backwards by a little, or return exactly to the start of the same / the previous message
+        vals = [("v", v) for v in INT32_VALUES + [f.value - 1, f.value + 1, -12, -11, -13, -14, -26, -34,
+                                                  -(f.value + 12), -(f.value + 24), -(2 * f.value + 24)]]
     elif f.kind == "int16":
         vals = [("v", v) for v in (0, 1, 2, 3, 4, 5, 6, 7, 8, 0x10, 0x20, 0x25, 0x3f, -1, 0x7fff, f.value ^ 0x20,
                                    f.value ^ 0x08)]
